@@ -220,7 +220,7 @@ def call_bound():
     return max(10.0, 10.0 * max(source_timeouts() or [1.0]))
 
 
-# ---- bounded queue for vsim (vsim.VQueue ignores maxsize) -----------------------------------------------------
+# ---- bounded queue for vsim (vsim.VQueue used to ignore maxsize (it honours it now)) -----------------------------------------------------
 
 class BoundedVQueue(vsim.VQueue):
     """queue.Queue semantics incl. a blocking put on a full bounded queue"""
